@@ -118,6 +118,19 @@ func solveObligation(o *Obligation, dir string, timeoutS int, all bool) {
 	if winner == nil {
 		race(file, "", false)
 	}
+	// 3. undecided: one patient retry (3x the time limit) of the slice, then of the full query, before giving up -
+	// an obligation that only just misses the limit under load must not become an alarm
+	if winner == nil && !o.Cover && !o.NoRetry {
+		save := timeoutS
+		timeoutS *= 3
+		if o.Sliced != "" {
+			race(o.Sliced, "/sliced/retry", true)
+		}
+		if winner == nil {
+			race(file, "/retry", false)
+		}
+		timeoutS = save
+	}
 	if all {
 		seen := map[string]bool{}
 		for _, r := range results {
